@@ -64,6 +64,31 @@ pub fn src_reg16(vm: &mut VM, ctx: &mut Context) -> Op {
     o.w = nt_word_reg(sel, CUR, vm, ctx);
     o
 }
+/// operand register fixed (used where a symbolic choice of the operand register would turn the
+/// query into an equivalence check of multiplier/divider circuits under multiplexers)
+pub fn dst_reg8_n(sel: u8, vm: &mut VM, ctx: &mut Context) -> Op {
+    let mut o = op0(K_REG);
+    o.sel = sel;
+    o.id = NT_byte_reg_ID[sel as usize];
+    o.b = nt_byte_reg(sel, CUR, vm, ctx);
+    o
+}
+pub fn dst_reg16_n(sel: u8, vm: &mut VM, ctx: &mut Context) -> Op {
+    let mut o = op0(K_REG);
+    o.sel = sel;
+    o.id = NT_word_reg_ID[sel as usize];
+    o.w = nt_word_reg(sel, CUR, vm, ctx);
+    o
+}
+macro_rules! fixed_regs {
+    ($($n8:ident, $n16:ident, $k:expr);*) => {
+        $(pub fn $n8(vm: &mut VM, ctx: &mut Context) -> Op { dst_reg8_n($k, vm, ctx) }
+          pub fn $n16(vm: &mut VM, ctx: &mut Context) -> Op { dst_reg16_n($k, vm, ctx) })*
+    };
+}
+fixed_regs!(dst_reg8_k0, dst_reg16_k0, 0; dst_reg8_k1, dst_reg16_k1, 1; dst_reg8_k2, dst_reg16_k2, 2; dst_reg8_k3, dst_reg16_k3, 3;
+            dst_reg8_k4, dst_reg16_k4, 4; dst_reg8_k5, dst_reg16_k5, 5; dst_reg8_k6, dst_reg16_k6, 6; dst_reg8_k7, dst_reg16_k7, 7);
+
 pub fn dst_seg(vm: &mut VM, ctx: &mut Context) -> Op {
     vsym!(w_d_sr: u8);
     let sel = w_d_sr % NT_seg_reg_N;
@@ -256,6 +281,27 @@ macro_rules! frame_only {
     };
 }
 
+macro_rules! frame_only_un {
+    ($h:ident, $lab:expr, $nt_f:ident, $nt_n:ident, $nt_id:ident, $mkdst:ident, $filter:expr, $call:expr) => {
+        #[cfg_attr(kani, kani::proof)]
+        pub fn $h() {
+            let mut vm = mk_vm();
+            let mut ctx = mk_ctx();
+            vsym!(w_op: u8);
+            vsym!(w_p: usize);
+            vassume!(w_op < $nt_n && w_p < MBU);
+            vassume!(($filter)($nt_id[w_op as usize]));
+            vcell!(vm, w_p, w_pv);
+            let f = $nt_f(w_op, CUR, &mut vm, &mut ctx);
+            let d: Op = $mkdst(&mut vm, &mut ctx);
+            let _st: State = ($call)(&mut vm, &mut ctx, f, &d);
+            vassert!(concat!($lab, ".memory_untouched"), vm.mem[w_p] == w_pv);
+            done_ctx(ctx);
+            done(vm);
+        }
+    };
+}
+
 /// Generic body for  `<f> dst, src`  productions whose kernel has type fn(&mut VM, T, T) -> T:
 /// the production must leave dst := f(dst_pre, src_pre), the flag word f leaves, and nothing else.
 macro_rules! binop8 {
@@ -350,17 +396,16 @@ macro_rules! binop16 {
 /// INC/DEC/NEG: dst := f(dst); MUL/IMUL/DIV/IDIV: dst is only read, AX(/DX) receive the result;
 /// Err from the kernel = the divide-error outcome State::INT(0).
 macro_rules! unop {
-    ($h:ident, $lab:expr, $t:ty, $w:expr, $nt_f:ident, $nt_n:ident, $nt_text:ident, $nt_id:ident, $mkdst:ident, $filter:expr, $call:expr) => {
+    ($h:ident, $lab:expr, $t:ty, $w:expr, $nt_f:ident, $nt_n:ident, $nt_text:ident, $nt_id:ident, $mkdst:ident, $filter:expr, $probe:tt, $call:expr) => {
         #[cfg_attr(kani, kani::proof)]
         pub fn $h() {
             let mut vm = mk_vm();
             let mut ctx = mk_ctx();
             vsym!(w_op: u8);
-            vsym!(w_p: usize);
-            vassume!(w_op < $nt_n && w_p < MBU);
+            vassume!(w_op < $nt_n);
             let opid = $nt_id[w_op as usize];
             vassume!(($filter)(opid));
-            vcell!(vm, w_p, w_pv);
+            probe_decl!($probe, vm, w_p, w_pv);
             let f = $nt_f(w_op, CUR, &mut vm, &mut ctx);
             let d: Op = $mkdst(&mut vm, &mut ctx);
             vcell!(vm, d.m, w_c0);
@@ -387,8 +432,7 @@ macro_rules! unop {
             }
             vassert!(concat!($lab, ".outcome"), st == if r.is_ok() { State::NEXT } else { State::INT(0) });
             vassert!(concat!($lab, ".registers_and_flags"), regs(&vm) == er);
-            vassert!(concat!($lab, ".memory"), vm.mem[w_p] == expect_mem);
-            vcover!(concat!($lab, ".cover.probe_is_operand"), !d.is_mem() || w_p == d.m || w_p == nxt(d.m));
+            probe_check!($probe, $lab, vm, w_p, expect_mem, !d.is_mem() || w_p == d.m || w_p == nxt(d.m));
             #[cfg(not(kani))]
             {
                 let mut c2 = ctx_for_label(pre.ds, d.m);
